@@ -55,6 +55,8 @@ pub enum Step {
     Empty(u8),
     /// jump to just below a boundary height (fabricated state through the public from_block)
     Teleport(u8),
+    /// jump to this height (taken modulo 2 000 000; forward only, never across the TIP-906 barrier)
+    TeleportTo(u32),
     /// admission check: validate transactions on a scratch copy of the state and keep the accepted ones for later
     Admit(Vec<TxPlan>),
     /// include up to n waiting transactions as one batch
@@ -178,6 +180,22 @@ fn varint(v: u128, min_width: u8) -> Vec<u8> {
         2 => [vec![252u8], (v as u32).to_le_bytes().to_vec()].concat(),
         3 => [vec![253u8], (v as u64).to_le_bytes().to_vec()].concat(),
         _ => [vec![254u8], v.to_le_bytes().to_vec()].concat(),
+    }
+}
+
+/// The data of a mint, `(difficulty, proof bytes)`, optionally with the difficulty and the proof's length prefix written
+/// wider than necessary (valid; decodes to the same pair). `sel` = 0 gives the canonical bytes.
+pub fn mint_data(difficulty: u32, proof: &[u8], sel: u8) -> Vec<u8> {
+    let canon = stdcode::serialize(&(difficulty, proof.to_vec())).unwrap();
+    if sel % 4 == 0 {
+        return canon;
+    }
+    let mut out = varint(difficulty as u128, if sel & 1 == 1 { 1 + (sel >> 2) % 2 } else { 0 });
+    out.extend_from_slice(&varint(proof.len() as u128, if sel & 2 == 2 { 2 + (sel >> 4) % 2 } else { 0 }));
+    out.extend_from_slice(proof);
+    match stdcode::deserialize::<(u32, Vec<u8>)>(&out) {
+        Ok((d, p)) if d == difficulty && p == proof => out,
+        _ => canon,
     }
 }
 
@@ -681,6 +699,7 @@ pub struct Builder<'a> {
     pub batch_spent: Vec<CoinID>,
     pub batch_faucet_fees: u128,
     pub pool_liqs: Vec<(PoolKey, u128)>,
+    pub pool_states: BTreeMap<PoolKey, melstructs::PoolState>,
 }
 
 impl<'a> Builder<'a> {
@@ -691,7 +710,7 @@ impl<'a> Builder<'a> {
                 pools.push(*k);
             }
         }
-        Builder { w, p, avail: w.wallet.clone(), mult: snap.fee_mult, height: snap.height, pools, batch_created: vec![], batch_spent: vec![], batch_faucet_fees: 0, pool_liqs: snap.pools.iter().filter(|(k, p)| k.left() != k.right() && p.liqs > 0).map(|(k, p)| (*k, p.liqs)).collect() }
+        Builder { w, p, avail: w.wallet.clone(), mult: snap.fee_mult, height: snap.height, pools, batch_created: vec![], batch_spent: vec![], batch_faucet_fees: 0, pool_liqs: snap.pools.iter().filter(|(k, p)| k.left() != k.right() && p.liqs > 0).map(|(k, p)| (*k, p.liqs)).collect(), pool_states: snap.pools.clone() }
     }
 
     /// Destination address of a generic output: usually one of the harness's covenants; one in sixteen is a *twin* of
@@ -972,7 +991,7 @@ impl<'a> Builder<'a> {
             v
         };
         let mut tx = self.base(TxKind::DoscMint, &inputs);
-        tx.data = stdcode::serialize(&(difficulty, proof.to_bytes())).unwrap().into();
+        tx.data = mint_data(difficulty, &proof.to_bytes(), if tp.mparam % 5 == 4 { (tp.mparam >> 3) as u8 } else { 0 }).into();
         if tp.fee % 3 == 0 && erg >= 1 {
             // the minted ERG split over two outputs, the larger part first
             tx.outputs.push(CoinData { covhash: self.dest(tp.outs[0].dest).hash(), value: CoinValue(erg - 1), denom: Denom::Erg, additional_data: Default::default() });
@@ -1079,6 +1098,16 @@ impl<'a> Builder<'a> {
         let totals = Self::totals(&inputs);
         let have = *totals.get(&side).unwrap_or(&0);
         let mut amt = amount_class(tp.amount, if side == Denom::Mel { have / 2 } else { have });
+        if tp.amount % 16 == 11 {
+            // a value that coincides with one the pool holds: exactly the reserve of the side paid in, of the other
+            // side, or the liquidity counter
+            if let Some(ps) = self.pool_states.get(&k) {
+                let pick = [if side == k.left() { ps.lefts } else { ps.rights }, if side == k.left() { ps.rights } else { ps.lefts }, ps.liqs][(tp.mparam as usize / 7) % 3];
+                if pick > 0 && pick <= have && pick <= MAX_COINVAL {
+                    amt = pick;
+                }
+            }
+        }
         if amt == 0 && !self.p.hostile {
             amt = have.min(1);
         }
@@ -1115,6 +1144,15 @@ impl<'a> Builder<'a> {
         let cap = |d: Denom, have: u128| if d == Denom::Mel { have / 2 } else { have };
         let mut a = amount_class(tp.amount, cap(k.left(), hl));
         let mut b = amount_class(tp.amount.rotate_left(3), cap(k.right(), hr));
+        if tp.amount % 16 == 11 {
+            // exactly the pool's reserves (doubling it), where the wallet can afford that
+            if let Some(ps) = self.pool_states.get(&k) {
+                if ps.lefts > 0 && ps.rights > 0 && ps.lefts <= cap(k.left(), hl) && ps.rights <= cap(k.right(), hr) && ps.lefts <= MAX_COINVAL && ps.rights <= MAX_COINVAL {
+                    a = ps.lefts;
+                    b = ps.rights;
+                }
+            }
+        }
         if !self.p.hostile {
             a = a.max(hl.min(1));
             b = b.max(hr.min(1));
@@ -1588,6 +1626,10 @@ pub struct SealObs<'a> {
 
 #[allow(unused_variables)]
 pub trait Monitor {
+    /// the lineage was re-based at another height (fabricated parent): anything tracked along the chain starts anew
+    fn on_teleport(&mut self, w: &World, st: &mut Stats) -> Check {
+        Ok(())
+    }
     fn on_start(&mut self, w: &World, st: &mut Stats) -> Check {
         Ok(())
     }
@@ -1823,16 +1865,39 @@ pub fn run_plan(plan: &Plan, profile: &Profile, mon: &mut dyn Monitor, st: &mut 
                     break;
                 }
             }
-            Step::Teleport(c) => {
+            Step::Teleport(_) | Step::TeleportTo(_) => {
                 if profile.p_teleport == 0 || txs_in_block > 0 {
                     continue;
                 }
-                if let Some(target) = teleport_target(w.net, snap.height, *c) {
+                let target = match step {
+                    Step::Teleport(c) => teleport_target(w.net, snap.height, *c),
+                    Step::TeleportTo(h) => {
+                        let mut t = *h as u64 % 2_000_000;
+                        let barrier = match w.net {
+                            NetID::Mainnet => Some(829_999u64),
+                            NetID::Testnet => Some(499u64),
+                            _ => None,
+                        };
+                        if let Some(b) = barrier {
+                            if snap.height <= b + 1 && t > b {
+                                t = b;
+                            }
+                        }
+                        if t > snap.height + 1 {
+                            Some(t)
+                        } else {
+                            None
+                        }
+                    }
+                    _ => None,
+                };
+                if let Some(target) = target {
                     if !teleport(&mut w, target, st) {
                         break;
                     }
                     snap = w.snap();
                     st.class("teleported");
+                    mon.on_teleport(&w, st)?;
                 }
             }
             Step::Restart => {
@@ -2089,6 +2154,13 @@ pub fn teleport_target(net: NetID, cur: u64, c: u8) -> Option<u64> {
         _ => &[199_999, 399_999, 599_999, 799_999, 999_999, 1_199_999, 1_949_999],
     };
     let mut t = list[c as usize % list.len()];
+    if c >= 160 {
+        // not a boundary but some height anywhere below 2 000 000 (rules tied to a window of heights that is not an
+        // activation height are only met by sampling heights); derived from the current height too, so that the 96
+        // selector values give far more than 96 targets
+        let x = crate::util::h64(&[cur.to_le_bytes(), (c as u64).to_le_bytes()].concat());
+        t = x % 2_000_000;
+    }
     let barrier = match net {
         NetID::Mainnet => Some(829_999u64),
         NetID::Testnet => Some(499u64),
